@@ -58,9 +58,14 @@ def _mentions_received(expr, params):
     return False
 
 
+# keyword parameters of IrcMsg.__init__ (checked against its signature in gen_T06)
+IRCMSG_KEYWORDS = {'s', 'command', 'args', 'prefix', 'server_tags', 'msg', 'reply_env'}
+
+
 def inventory():
     """every call that reaches IrcMsg.__init__'s `msg is not None` branch:
-       kind 0: IrcMsg(..., msg=X) written directly;  kind 1: ircmsgs.<maker>(..., msg=X) from outside ircmsgs.py.
+       kind 0: IrcMsg(..., msg=X) written directly with some other keyword;  kind 1: ircmsgs.<maker>(..., msg=X) from
+       outside ircmsgs.py;  kind 2: IrcMsg(msg=X) with NO other argument, a pure copy (fail-closed on unknown keywords).
        (path, function, kind, callee, args= given, args= reads some message's .args)"""
     makers = set()
     mt = tree('src/ircmsgs.py')
@@ -87,7 +92,11 @@ def inventory():
             if m is None or (isinstance(m, ast.Constant) and m.value is None):
                 continue
             if _is_ircmsg_ctor(c):
-                kind, callee = 0, 'IrcMsg'
+                kws = [k.arg for k in c.keywords]
+                need(None not in kws and set(kws) <= IRCMSG_KEYWORDS,
+                     'IrcMsg(msg=...) call with **kwargs or an unknown keyword in %s: %s' % (rel, ast.unparse(c)[:120]))
+                pure = kws == ['msg'] and not c.args
+                kind, callee = (2 if pure else 0), 'IrcMsg'
             elif isinstance(c.func, ast.Attribute) and isinstance(c.func.value, ast.Name) and c.func.value.id == 'ircmsgs' \
                     and c.func.attr in makers:
                 kind, callee = 1, c.func.attr
@@ -213,6 +222,12 @@ def gen_T06():
         need(ast.unparse(_kw(c, 'msg')) == 'msg', name + ': msg= passthrough')
     # IrcMsg.__init__: the assert sits only in the msg-is-None branch
     init = find_def(im, '__init__', 'IrcMsg')
+    need({a.arg for a in init.args.args[1:]} == IRCMSG_KEYWORDS and not init.args.kwonlyargs and init.args.kwarg is None,
+         'IrcMsg.__init__ signature changed: %s' % [a.arg for a in init.args.args])
+    # the copy semantics of the msg= branch the pure-copy lemma relies on: every field not given comes from msg
+    srci = ast.unparse(init)
+    for frag in ('self.prefix = msg.prefix', 'self.command = msg.command', 'self.args = msg.args', 'self.server_tags = msg.server_tags'):
+        need(frag in srci, 'IrcMsg.__init__: msg= branch no longer copies (%s)' % frag)
     asserts = [ast.unparse(n.test) for n in ast.walk(init) if isinstance(n, ast.Assert)]
     need('all(ircutils.isValidArgument, args)' in asserts, 'IrcMsg.__init__: argument assert missing')
     sites, makers = inventory()
@@ -233,7 +248,7 @@ def gen_T06():
     out += '(* code points for which str.isprintable() is False, as inclusive ranges (CPython %s) *)\n' % '.'.join(map(str, __import__('sys').version_info[:3]))
     out += 'Definition NONPRINTABLE : list (N * N) :=\n  %s.\n' % clist('(%d, %d)' % r for r in np)
     out += ('(* every call reaching the unchecked msg= branch of IrcMsg.__init__:\n'
-            '   (file, enclosing def, kind 0 = IrcMsg(msg=..) / 1 = ircmsgs.maker(msg=..), callee, args given, args read a message) *)\n')
+            '   (file, enclosing def, kind 0 = IrcMsg(msg=.., other keywords) / 1 = ircmsgs.maker(msg=..) / 2 = IrcMsg(msg=..) alone (pure copy), callee, args given, args read a message) *)\n')
     out += 'Definition MSGCTOR_SITES : list (string * string * N * string * bool * bool) :=\n  %s.\n' % clist(
         '\n   (%s, %s, %d, %s, %s, %s)' % (coqstring(f), coqstring(fn), k, coqstring(cal), cbool(a), cbool(r))
         for f, fn, k, cal, a, r in sites)
